@@ -164,9 +164,40 @@ func refPsi2(b []bool, w int) float64 {
 	return float64(int(1)<<uint(w))/float64(n)*sum - float64(n)
 }
 
+// refPsi2Rat: psi^2_w as an exact rational (2^w/n * sum c^2 - n)
+func refPsi2Rat(b []bool, w int) *mbig.Rat {
+	n := len(b)
+	if w <= 0 {
+		return new(mbig.Rat)
+	}
+	cnt := make([]int64, 1<<uint(w))
+	for s := 0; s < n; s++ {
+		v := 0
+		for j := 0; j < w; j++ {
+			v = v*2 + b2f(b[(s+j)%n])
+		}
+		cnt[v]++
+	}
+	sum := new(mbig.Int)
+	for _, c := range cnt {
+		sum.Add(sum, new(mbig.Int).Mul(mbig.NewInt(c), mbig.NewInt(c)))
+	}
+	sum.Mul(sum, mbig.NewInt(int64(1)<<uint(w)))
+	r := new(mbig.Rat).SetFrac(sum, mbig.NewInt(int64(n)))
+	return r.Sub(r, new(mbig.Rat).SetInt64(int64(n)))
+}
+
+// refOverlapping: the first and second differences of psi^2 are formed exactly and rounded once (the upper incomplete
+// gamma function with shape 1/2 is singular at 0, so noise in a difference of rounded values would be amplified)
 func refOverlapping(b []bool, m int) (float64, float64) {
-	p0, p1, p2 := refPsi2(b, m), refPsi2(b, m-1), refPsi2(b, m-2)
-	return refQ(math.Pow(2, float64(m-2)), (p0-p1)/2), refQ(math.Pow(2, float64(m-3)), (p0-2*p1+p2)/2)
+	p0, p1, p2 := refPsi2Rat(b, m), refPsi2Rat(b, m-1), refPsi2Rat(b, m-2)
+	d1 := new(mbig.Rat).Sub(p0, p1)
+	d2 := new(mbig.Rat).Sub(p0, p1)
+	d2.Sub(d2, p1)
+	d2.Add(d2, p2)
+	f1, _ := d1.Float64()
+	f2, _ := d2.Float64()
+	return refQ(math.Pow(2, float64(m-2)), f1/2), refQ(math.Pow(2, float64(m-3)), f2/2)
 }
 
 func refApEnPhi(b []bool, w int) float64 {
